@@ -7,9 +7,13 @@
      relayed, the connection's local address has a thin waist that is the thin
      waist of a listen address, the observed address has a thin waist of the
      same IP version and tcp/udp kind as the local one, and the remote has an
-     IP (otherwise there is no observer to count).  A report that does not
-     count is ignored altogether (it does not replace the connection's
-     previous report).
+     IP (otherwise there is no observer to count).
+   - a report whose CONTENT never counts (loopback / NAT64 / relayed / no thin
+     waist / inconsistent transport / not arriving at a listen address) still
+     is the connection's newest report: it withdraws the connection's previous
+     report ("withdrawn when it changes") and is itself not credited.  A
+     report with countable content on a connection that is already closed, or
+     whose remote has no IP, is ignored.
    - a connection vouches for at most one observed thin waist: the last
      counting report; it stops vouching when the connection is disconnected
      ("closes" = the swarm's Disconnected notification).
@@ -80,6 +84,25 @@ Definition pair_eqb (a b : Z * Z) : bool := (fst a =? fst b) && (snd a =? snd b)
 
 Definition mon_close (cl : list Z) (c : Z) : list Z := if zmem c cl then cl else c :: cl.
 
+(* is the content of the report one that can count at all?  (not loopback /
+   NAT64 / relayed; arriving at a listen address's thin waist; observed thin
+   waist of the same IP version and tcp/udp kind) *)
+Definition content_counts (cfg : config) (ci : conninfo) (oa : obsaddr) : bool :=
+  negb (o_lb oa || o_n64 oa || o_relay oa) &&
+  match c_local ci, o_tw oa with
+  | Some l, Some x => is_listen_tw cfg (tw_id l) && consistent l x
+  | _, _ => false
+  end.
+
+(* "a connection's report is withdrawn when it changes": a report whose content
+   never counts still is the connection's new report, so the previous one is
+   withdrawn (and the new one is not credited) *)
+Definition withdraws (cfg : config) (c : Z) (oa : obsaddr) : bool :=
+  match conn_info cfg c with
+  | None => false
+  | Some ci => negb (content_counts cfg ci oa)
+  end.
+
 Definition mon_observe (cfg : config) (m : mon) (c : Z) (oa : obsaddr) : mon :=
   match counts cfg (m_closed m) c oa with
   | Some lx =>
@@ -88,7 +111,9 @@ Definition mon_observe (cfg : config) (m : mon) (c : Z) (oa : obsaddr) : mon :=
                     else mkMon (set Z.eqb c lx (m_cred m)) (m_closed m)
       | None => mkMon (set Z.eqb c lx (m_cred m)) (m_closed m)
       end
-  | None => m
+  | None =>
+      if withdraws cfg c oa then mkMon (del Z.eqb c (m_cred m)) (m_closed m)
+      else m    (* countable content on a closed connection / without observer: ignored *)
   end.
 
 Definition mon_disconnect (m : mon) (c : Z) : mon :=
